@@ -335,6 +335,57 @@ func §gen() ITER[int] GEN[int]{
 	RETNIL
 }GEN
 `+StdEntry, "body-declares", "body-redeclares-loop-var-partially"),
+		Raw("cons-embedded-iterator-field", consumerSrc+`
+type §box struct {
+	ITER[int]
+	tag string
+}
+
+func §E() {
+	b := §box{Iter: §src(2, 10), tag: "t"}
+	for b.MoveNext() {
+		tr.V(1, b.Current())
+	}
+	c := §box{tag: "u"}
+	c.Iter = §src(1, 20)
+	for v := range OVER<<c.Iter>>OVER {
+		tr.V(2, v)
+	}
+}
+`, "iter-in:embedded-field"),
+		Raw("cons-alias-typed-iterator", consumerSrc+`
+type §ints = ITER[int]
+
+func §pass(it §ints) §ints { return it }
+func §E() {
+	var it §ints = §src(3, 10)
+	for v := range OVER<<§pass(it)>>OVER {
+		tr.V(1, v)
+	}
+}
+`, "iter-alias-type"),
+		Raw("cons-element-type-name-shadowed-by-loop-variable", `
+type §item struct{ n int }
+
+func §items(k int) ITER[§item] GEN[§item]{
+	for i := 0; i < k; i++ {
+		YIELD(§item{i})
+	}
+	RETNIL
+}GEN
+func §twice(k int) ITER[§item] GEN[§item]{
+	for §item := range OVER<<§items(k)>>OVER {
+		YIELD(§item)
+		YIELD(§item)
+	}
+	RETNIL
+}GEN
+func §E() {
+	for it := §twice(2); it.MoveNext(); {
+		tr.V(1, it.Current().n)
+	}
+}
+`, "element-type-name-shadowed"),
 		mk("cons-two-iterators-alternating", `
 a, b := §src(3, 10), §src(3, 20)
 for a.MoveNext() && b.MoveNext() {
